@@ -205,6 +205,12 @@ class Calls(Interp):
         for p, ty in c.types.items():
             if p in binding and p != "return":
                 binding[p] = self.coerce(binding[p], ty)
+        top = self.reg.contracts.get(self.fid)
+        cg = (top.labels.get("callee_ghosts", {}) if top else {}).get(c.fid)
+        if cg:
+            # the caller instantiates the callee's logical (ghost) parameters: expressions over the caller's own variables
+            for g, expr in cg.items():
+                self.st.ghost[g] = self.eval_spec_value(expr)
         pre = self.st.snapshot()
         for j, cl in enumerate(c.requires):
             self.prove_clause("pre:%s/%d" % (callee_name, j), cl, kind="callee-precondition", spec_env=binding, old=pre, env={})
@@ -529,7 +535,7 @@ class Calls(Interp):
     # ------------------------------------------------------------------ constructors
     def construct(self, cls, args, kwargs, node):
         name = cls.name
-        if name in BUILTIN_EXC or (name in self.reg.exc_bases and is_exc_subclass(self.reg, self.src, name, "BaseException")):
+        if name not in self.reg.entities and (name in BUILTIN_EXC or (name in self.reg.exc_bases and is_exc_subclass(self.reg, self.src, name, "BaseException"))):
             return VExc(name, args)
         if name in self.reg.constructors:
             return self.reg.constructors[name](self, args, kwargs)
